@@ -2,7 +2,7 @@
 HARNESSES := h_numbers h_wto h_patricia h_scalar h_wrapint h_fwd-interval h_hist-interval
 HARNESSES += h_hist-pack_sdbm h_hist-sdbm h_hist-soct h_hist-ric h_hist-term_int h_hist-bool_int h_fwd-sdbm h_fwd-soct h_fwd-ric h_fwd-term_int h_fwd-bool_int
 HARNESSES += h_fixpo_exact
-HARNESSES += h_histg-interval h_histg-sdbm h_histg-bool_int
+HARNESSES += h_histg-interval h_histg-sdbm h_histg-bool_int h_histv-interval h_histv-sdbm h_histv-bool_int
 HARNESSES += h_exact-itv h_exact-sdbm h_exact-dbm h_exact-soct h_exact-lift
 HARNESSES += h_fwd-aa_int h_fwd-aa_sdbm h_fwd-aa_bool_int h_fwd-as_disint h_fwd-as_sdbm h_fwd-as_bool_int h_fwd-wint
 HARNESSES += h_transform h_dataflow
